@@ -248,13 +248,7 @@ func runAttack(c AttackCase) core.Result {
 			return stuck("the torrent did not reach Seeding within 15 s on complete, correct files")
 		}
 		var p *speer.Peer
-		for try := 0; try < 40; try++ {
-			p, err = speer.Dial(sess.IP(2), clientAddr, mkOpts(2, true, true, false), 2*time.Second)
-			if err == nil || !strings.Contains(err.Error(), "refused") {
-				break
-			}
-			time.Sleep(25 * time.Millisecond)
-		}
+		p, err = speer.DialPatient(sess.IP(2), clientAddr, mkOpts(2, true, true, false))
 		if err != nil {
 			return stuck("the honest leecher cannot connect: " + err.Error())
 		}
